@@ -80,7 +80,7 @@ func checkC18(c *Ctx) {
 		"statement and expression node a line: the statement dispatcher, the import loop, the basic-expression dispatcher and each operator level call setStmtCurrentLine on the node on every path to its return; (C18.lines) the three scanners that consume line breaks " +
 		"(lexer line loop, multi-line string literals, multi-line comments) register exactly one line per physical break, CRLF and LFCR counting as one, with the line starting right after the break (step tables extracted by constant propagation); " +
 		"(C18.chain) call frames are popped on every non-error exit and cut back before a handler runs, so a reported chain contains only active calls; (C18.module) each chain entry's native-module test and source line use that entry's own module; " +
-		"(C18.syntax) a syntax error's line number and quoted line are computed from the same cursor. NOT decided: the caret column arithmetic (East-Asian widths), that FindLineIdx maps a cursor to the right line for all inputs (run-time arithmetic over the registered lines)."
+		"(C18.syntax) a syntax error's line number and quoted line are computed from the same cursor. Also: no PopCallFrame in the evaluator is deferred or placed on a branch where an error is known (the chain is rendered after the failing functions returned). NOT decided: the caret column arithmetic (East-Asian widths), that FindLineIdx maps a cursor to the right line for all inputs (run-time arithmetic over the registered lines)."
 	R.Assumptions = []string{"Lexer.FindLineIdx returns the last line whose StartIdx <= cursor (baseline tests)", "runtime.CallFrame.SetCurrentLine stores the line"}
 	u := c.Core()
 	u.buildSSA()
@@ -232,6 +232,33 @@ func checkC18(c *Ctx) {
 
 	// ---- C18.chain
 	ruleChainRules(c, u)
+	// the chain is rendered from the call stack when the error is displayed, i.e. after the failing functions have
+	// returned: on an error exit the frames must still be there. A deferred pop runs on error exits too.
+	nPop := 0
+	for _, g := range u.srcFuncs("pkg/exec") {
+		for _, in := range instrsOf(g) {
+			if !isCallTo(u, in, "pkg/runtime.VM.PopCallFrame") {
+				continue
+			}
+			nPop++
+			key := u.fname(g) + ":" + siteName(u, g, in.(ssa.CallInstruction)) + ":not-on-error-exit"
+			_, deferred := in.(*ssa.Defer)
+			bad := ""
+			if deferred {
+				bad = "the pop is deferred, so it also runs when the function returns an error"
+			} else {
+				for _, t := range nilTests(g) {
+					if isErrorType(t.X.Type()) && edgeDominates(t.If.Block(), t.NotNil, in.Block()) && u.fname(g) != "pkg/exec.handleExceptionSignal" {
+						bad = "the pop is executed on the branch where an error is known (test at " + u.pos(t.If.Pos()) + ")"
+					}
+				}
+			}
+			R.check(bad == "", "C18.chain", key, u.pos(in.Pos()), "frames are popped only on successful exits (an error leaves its chain for the report)", "a call frame is removed on an error exit: "+bad+" - the reported call chain loses the calls that were active when the error arose")
+		}
+	}
+	if nPop < 4 {
+		R.viol("C18.chain", "pop-sites", "", fmt.Sprintf("expected at least 4 PopCallFrame sites in pkg/exec, found %d", nPop))
+	}
 
 	// ---- C18.module
 	if f := u.ssaFunc("pkg/exec", "RuntimeErrorWrapper.Error"); f != nil {
